@@ -163,4 +163,27 @@ def fragReport (fmt : Nat → List Char) (m : Module) : List String :=
   (if identOk m.name && m.externs.all (fun e => identOk e.name) &&
       m.vars.all (fun v => identOk v.name && initText v.init) then [] else ["identifier"])
 
+/-! ## the module as the text reader rebuilds it: phi inputs in the order of the text -/
+
+def keyOf (q : String × Operand) : String × String := (q.1, opName q.2)
+
+def insertIn (q : String × Operand) : List (String × Operand) → List (String × Operand)
+  | [] => [q]
+  | p :: r => if pairLe (keyOf q) (keyOf p) then q :: p :: r else p :: insertIn q r
+
+/-- `pairs.sort()` of `Phi.__str__`, on the inputs themselves -/
+def sortIns : List (String × Operand) → List (String × Operand)
+  | [] => []
+  | q :: r => insertIn q (sortIns r)
+
+def normPhiInstr : Instr → Instr
+  | .phi d ty ins => .phi d ty (sortIns ins)
+  | i => i
+
+def normPhiBlock (b : Block) : Block := { b with instrs := b.instrs.map normPhiInstr }
+def normPhiFunc (f : Func) : Func := { f with blocks := f.blocks.map normPhiBlock }
+
+/-- `m` with the inputs of every phi sorted by (block name, value name) -/
+def normPhi (m : Module) : Module := { m with funcs := m.funcs.map normPhiFunc }
+
 end Model.IRFrag
